@@ -112,6 +112,23 @@ pub fn run(ctx: &Ctx, rep: &mut Reporter) -> Json {
                     rep.violation(case_idx, "implied-length", "output length differs from the length implied by its own header", d);
                 }
             }
+            // history: the thread's previous write was a FAILED write of another mapping
+            {
+                use pgvcore::sinks::{FaultSink, Schedule};
+                for at in [1usize, 3, 6, 9] {
+                    let mut sink = FaultSink::new(Schedule::FailAt(at));
+                    let failed = cur::write_cache_to(OTHER_MAPPING, &mut sink).is_err();
+                    let c = cur::write_cache(&text).expect("write to Vec");
+                    rep.count("evaluations", 1);
+                    rep.count("writes", 1);
+                    if failed {
+                        rep.count("writes_after_a_failed_write_of_another_mapping", 1);
+                    }
+                    if c != a {
+                        rep.violation(case_idx, "determinism", "the serialisation that follows a failed write of another mapping on the same thread differs", mk("after a failed write of another mapping", &a, &c));
+                    }
+                }
+            }
             // two other kinds of destination: a sink that only implements `write` (what every
             // user-defined writer looks like) and a pre-sized cursor
             {
